@@ -13,6 +13,8 @@ HAS_READER = ["uvl", "afm", "json", "glencoe", "fide"]
 EXT = {"uvl": "uvl", "afm": "afm", "json": "json", "glencoe": "gfm.json", "fide": "xml",
        "splot": "sxfm", "clafer": "txt", "pl": "exp", "xml": "xml"}
 DIRS = ["d0", "d1/sub", "dir with space", "d-2.x"]
+RETYPE_WORDS = ["FEATURE", "GROUP", "Xor", "", "OPTIONAL", "OR", "CARDINALITY", "true", "7", "-1",
+                "NOT", "XOR", "AND", "MANDATORY", "yes"]
 
 
 class Builder:
@@ -155,6 +157,13 @@ def plan_serialise(seed, tier):
                 live.append([h, None])
             for h_ref in live:
                 h_ref[1] = [o for o in b.seg["ops"] if o.get("m") == h_ref[0]][0]["ref"]
+            if rng.random() < 0.3:
+                # a sibling model whose names differ from an existing one's only in letter case
+                variant = gen.case_variant_model(rng, rng.choice(live)[1])
+                if variant is not None:
+                    h = b.handle()
+                    b.op(op="NEW", m=h, ref=variant, style="td", frag="whole")
+                    live.append([h, variant])
             for _step in range(rng.randint(6, 18 if tier == "quick" else 40)):
                 k = rng.random()
                 if faulty and s < nseg - 1 and rng.random() < 0.04:
@@ -358,11 +367,25 @@ def plan_roundtrip(fmts, seed, tier):
                              **{"as": b.handle()})
                     lin["h"] = rop["as"]
             elif k < 0.7:
-                edit, new = gen.gen_edit(rng, lin["ref"], fmt, pool, lin["cfg"])
+                ecfg = lin["cfg"]
+                if fmt in ("uvl", "json") and rng.random() < 0.2:
+                    # nothing changes but the type of one numerically equal attribute value
+                    ecfg = dict(ecfg, only_kinds=["set_attr"], twin_bias=True)
+                edit, new = gen.gen_edit(rng, lin["ref"], fmt, pool, ecfg)
                 if edit is not None:
                     b.op(op="EDIT", m=lin["h"], edit=edit, ref_after=rm.project(fmt, new)
                          if _is_readback(b, lin["h"]) else new)
                     lin["ref"] = new
+                    if lin["path"] is not None and rng.random() < 0.4:
+                        # the slightly different model replaces its own earlier document in
+                        # place (a near-identical file is already there) and is read back
+                        b.op(op="WRITE", fmt=fmt, m=lin["h"], path=lin["path"],
+                             writer=rng.choice(["fresh", "reuse"]), pathstyle="abs")
+                        path_ref[lin["path"]] = lin["ref"]
+                        rop = {"op": "READ", "fmt": fmt, "path": lin["path"], "as": b.handle(),
+                               "pathstyle": "abs"}
+                        b.op(**rop)
+                        lin["h"] = rop["as"]
             elif k < 0.8 and lin["path"] is not None:
                 rop = {"op": "READ", "fmt": fmt, "path": lin["path"], "as": b.handle(),
                        "pathstyle": rng.choice(["abs", "rel"]),
@@ -372,10 +395,11 @@ def plan_roundtrip(fmts, seed, tier):
                 b.op(**rop)
             elif k < 0.9 and faulty and lin["path"] is not None:
                 kind = rng.choice(["bitflip", "subst", "zero_sector", "dup_sector",
-                                   "drop_sector", "truncate", "utf8_break"])
+                                   "drop_sector", "truncate", "utf8_break"] +
+                                  (["retype"] * 3 if fmt in ("json", "glencoe", "fide") else []))
                 b.op(op="CORRUPT", path=lin["path"], kind=kind, frac=rng.random(),
                      bit=rng.randint(0, 7), byte=rng.choice([0x24, 0x00, 0xff, 0x7b, 0x3c, 0x22]),
-                     sector=rng.choice([16, 64]), fmt=fmt)
+                     sector=rng.choice([16, 64]), fmt=fmt, word=rng.choice(RETYPE_WORDS))
                 b.op(op="READ", fmt=fmt, path=lin["path"], pathstyle="abs")
                 lin["path"] = None
             elif k < 0.95 and faulty and not last_seg and not torn:
@@ -869,9 +893,10 @@ def plan_third_party(seed, tier):
                      expect={"kind": "any"})
                 b.op(op="CORRUPT", path=path, fmt=fmt, frac=rng.random(),
                      kind=rng.choice(["bitflip", "subst", "zero_sector", "dup_sector",
-                                      "drop_sector", "truncate", "utf8_break"]),
+                                      "drop_sector", "truncate", "utf8_break"] +
+                                     (["retype"] * 3 if fmt in ("glencoe", "fide", "xml") else [])),
                      bit=rng.randint(0, 7), byte=rng.choice([0x3c, 0, 0xff, 0x7b, 0x22]),
-                     sector=rng.choice([16, 64]))
+                     sector=rng.choice([16, 64]), word=rng.choice(RETYPE_WORDS))
                 b.op(op="READ", fmt=fmt, path=path, pathstyle="abs")
         _canary(b, rng)
     b.plan["replicas"] = [{"env": {}, "disk_cfg": {"default_encoding": "utf-8"}}]
@@ -1007,7 +1032,8 @@ def plan_threads(focus, seed, tier):
             models.append((h, ref))
     for _c in range(rng.randint(2, 5 if tier == "quick" else 12)):
         nl = rng.choice([2, 2, 2, 3])
-        share = bool(models) and focus in ("writers", "ops") and rng.random() < 0.3
+        # (a model shared by the lanes is only read: exported and analysed, never edited)
+        share = bool(models) and rng.random() < 0.3
         lanes = []
         avail = list(models)
         rng.shuffle(avail)
